@@ -186,6 +186,10 @@ func tokenBridgeRegisterChain(
 		return nil, errors.New("invalid chain_id")
 	}
 
+	if len(req.Module) > 32 {
+		return nil, errors.New("invalid module (expected at most 32 bytes)")
+	}
+
 	b, err := hex.DecodeString(req.EmitterAddress)
 	if err != nil {
 		return nil, errors.New("invalid emitter address encoding (expected hex)")
@@ -220,6 +224,10 @@ func tokenBridgeUpgradeContract(
 	sequence uint64,
 	targetChainId vaa.ChainID,
 ) (*vaa.VAA, error) {
+	if len(req.Module) > 32 {
+		return nil, errors.New("invalid module (expected at most 32 bytes)")
+	}
+
 	payload, err := hex.DecodeString(req.Payload)
 	if err != nil {
 		return nil, errors.New("invalid payload encoding (expected hex)")
